@@ -53,6 +53,15 @@ func genPairCase(t *rapid.T, optSets []string, tweak func(*gen.Profile)) PairCas
 			if gen.Chance(t, "alsoInB", 30) {
 				b = gen.DupSome(t, b, 40)
 			}
+			if gen.Chance(t, "respelled", 50) {
+				// the copies spell the arrays inside their key values (with
+				// RespellAll: every nested array) in different member orders
+				if p.RespellAll {
+					a = gen.Permute(t, a, 60)
+				} else {
+					a = gen.RespellKeyValues(t, a, ks)
+				}
+			}
 		}
 		if gen.Chance(t, "deep", 15) {
 			a, b = gen.DeepPair(t, a, b, p)
@@ -72,6 +81,12 @@ func genPairCase(t *rapid.T, optSets []string, tweak func(*gen.Profile)) PairCas
 	}
 	if gen.Chance(t, "pathTwins", 2) {
 		a, b = gen.PathTwins(t, a, b, p)
+	}
+	if jdx.SetKeysOf(opts) == nil && gen.Chance(t, "hashShapes", 2) {
+		a, b = hashShapePair(t)
+		if jdx.IsMerge(opts) {
+			a, b = stripNulls(a), stripNulls(b)
+		}
 	}
 	if jdx.SetKeysOf(opts) == nil && gen.Chance(t, "repeatedBlocks", 2) {
 		a, b = gen.RepeatedBlocks(t, p)
@@ -183,6 +198,12 @@ func checkC01(c PairCase, r *rec.Rec) error {
 		// key holds which value.
 		viol = func(f string, a ...interface{}) error { return rec.Known("D21", f, a...) }
 	}
+	if ks := jdx.SetKeysOf(c.Opts); ks != nil && respelledCopies(ks, av) {
+		// Known finding D41: copies of a keyed member that are the same value
+		// as sets but spell a nested array (outside the key values) in another
+		// member order.
+		viol = func(f string, a ...interface{}) error { return rec.Known("D41", f, a...) }
+	}
 	if out.Panicked {
 		return viol("Patch(a, a.Diff(b)) panicked: %s\ndiff:\n%s", out.PanicMsg, d.Render())
 	}
@@ -227,6 +248,46 @@ func checkC01(c PairCase, r *rec.Rec) error {
 // permutedKeyTuples reports whether two array-member objects of the documents
 // have different key tuples that hold the same values under different keys
 // (for example (id=0,k=1) and (id=1,k=0)).
+// respelledCopies: some array of the document holds two object members with
+// the same key tuple that are the same value under the set reading but not
+// the same text: a nested array outside the key values is written in another
+// member order (or with a repeated member).
+func respelledCopies(keys []string, doc val.V) bool {
+	found := false
+	var walk func(v val.V)
+	walk = func(v val.V) {
+		switch x := v.(type) {
+		case []val.V:
+			seen := map[string]string{} // canonical set form -> canonical list form without the key values
+			for _, e := range x {
+				walk(e)
+				o, ok := e.(map[string]val.V)
+				if !ok {
+					continue
+				}
+				rest := map[string]val.V{}
+				for k, mv := range o {
+					rest[k] = mv
+				}
+				for _, k := range keys {
+					delete(rest, k)
+				}
+				asSet, asList := val.Canon(e, val.Set), val.Canon(rest, val.List)
+				if prev, ok := seen[asSet]; ok && prev != asList {
+					found = true
+				}
+				seen[asSet] = asList
+			}
+		case map[string]val.V:
+			for _, e := range x {
+				walk(e)
+			}
+		}
+	}
+	walk(doc)
+	return found
+}
+
 func permutedKeyTuples(keys []string, docs ...val.V) bool {
 	byBag := map[string]string{}
 	found := false
@@ -279,7 +340,7 @@ func hugeRunPair(t *rapid.T) PairCase {
 	}
 	if kind := gen.Int(t, "hugeKind", 0, 2); kind > 0 {
 		// the same length and one or two elements substituted, or one element gone
-		n = gen.Int(t, "nExact", 1025, 1200)
+		n = gen.Int(t, "nExact", 1025, 1200*gen.Scale())
 		a = a[:0]
 		mod := gen.Pick(t, "hugeMod", []int{1, 2, 40, 5000})
 		for i := 0; i < n; i++ {
@@ -325,6 +386,7 @@ func TestC01Random(t *testing.T) {
 			return hugeRunPair(t)
 		}
 		return genPairCase(t, c01OptSets, func(p *gen.Profile) {
+			p.RespellAll = true // the D41 predicate is applied in this leg
 			if gen.Int(t, "deep", 0, 9) == 0 {
 				p.MaxDepth = 4
 			}
